@@ -32,6 +32,9 @@ PLAN = {
     "C18-m1": [("C18", None)], "C18-m2": [("C18", None)],
     "C19-m1": [("C19", None)], "C19-m2": [("C19", "sessions")],
     "C20-m1": [("C20", None)], "C20-m2": [("C20", None)],
+    # round 3 (m5): the parts added for the changes which the quick tier missed at first
+    "C03-m5": [("C03", "obo")], "C08-m5": [("C08", "acl-fault")], "C09-m5": [("C09", "msg-after-reload")],
+    "C14-m5": [("C14", "queue-full")], "C16-m5": [("C16", "files")],
 }
 def sh(*a, **k):
     return subprocess.run(list(a), capture_output=True, text=True, **k)
